@@ -274,10 +274,12 @@ func ruleCodecRegistries(c *Ctx, r *Report) {
 	}
 	got := map[string]bool{}
 	if fn := c.need(r, rule, "(*pkg/protocol/recordlayer.RecordLayer).Unmarshal"); fn != nil {
-		for _, b := range fn.Blocks {
-			for _, in := range b.Instrs {
-				if al, ok := in.(*ssa.Alloc); ok {
-					got[namedOf(al.Type())] = true
+		for _, g := range c.unitFuncs(fn) {
+			for _, b := range g.Blocks {
+				for _, in := range b.Instrs {
+					if al, ok := in.(*ssa.Alloc); ok {
+						got[namedOf(al.Type())] = true
+					}
 				}
 			}
 		}
